@@ -59,7 +59,7 @@ func runC10(e *Env) {
 	r := e.R
 	r.Rule("C10.R1", "paths", "serve loops survive per-peer errors; accept loop does no per-connection work", 7)
 	r.Rule("C10.R2", "flows", "handshake bounded by the configured timeout", 1)
-	r.Rule("C10.R3", "flows+locks", "peer key from both addresses; get-or-create atomic", 3)
+	r.Rule("C10.R3", "flows+locks", "peer key from both addresses; get-or-create atomic; stored under its own key", 4)
 	r.Rule("C10.R4", "paths", "discovery registration order and dispatch", 3)
 	r.Rule("C10.R5", "callgraph", "explicit panic sites are triaged", 20)
 	if e.want("C10.R1") {
@@ -134,6 +134,43 @@ func runC10(e *Env) {
 			e.R.Check(ok && n >= 3 && len(la.Sites) == 1, "C10.R3", "udp/server.Server.getOrCreateConn:one-critical-section", e.fpos(f), fmt.Sprintf("lookup, fallback lookup and insert (%d accesses) lie in one critical section of connsMutex", n), "lookup and insert of a peer connection are not one critical section: two datagrams of a new peer could create two connections")
 			checkLockPairing(e, "C10.R3", f, nil)
 		}
+	}
+	if e.want("C10.R3") {
+		// the connection is inserted (and later removed) under exactly getConnKey(raddr, laddr) of this call's own addresses
+		if f := e.fn("C10.R3", "udp/server.Server.getOrCreateConn"); f != nil && len(f.Params) >= 4 {
+			isOwnKey := func(v ssa.Value) bool {
+				c, ok := core.Resolve(v).(*ssa.Call)
+				return ok && core.CalleeName(c) == "udp/server.getConnKey" && core.Resolve(core.Arg(c, 0)) == ssa.Value(f.Params[2]) && core.Resolve(core.Arg(c, 1)) == ssa.Value(f.Params[3])
+			}
+			ok, n := true, 0
+			for _, g := range core.WithAnon(f) {
+				core.Instrs(g, func(in ssa.Instruction) {
+					switch x := in.(type) {
+					case *ssa.MapUpdate:
+						if _, fl, isF := fieldOfLoaded(x.Map); isF && fl == "conns" {
+							n++
+							if !isOwnKey(x.Key) {
+								ok = false
+							}
+						}
+					case *ssa.Call:
+						if b, isB := x.Call.Value.(*ssa.Builtin); isB && b.Name() == "delete" {
+							if _, fl, isF := fieldOfLoaded(x.Call.Args[0]); isF && fl == "conns" {
+								n++
+								if !isOwnKey(x.Call.Args[1]) {
+									ok = false
+								}
+							}
+						}
+					}
+				})
+			}
+			e.R.Check(ok && n >= 2, "C10.R3", "udp/server.Server.getOrCreateConn:stored-under-own-key", e.fpos(f), "the new connection is inserted, and removed on close, under getConnKey(raddr, laddr) of this call's own addresses", "a peer connection is stored under a key other than getConnKey(raddr, laddr) of its own addresses (e.g. the wildcard fallback key): the local address drops out of the connection identity")
+		}
+	}
+	if e.want("C10.R7") {
+		e.R.Rule("C10.R7", "callgraph", "monitor state is per connection (one peer's missed pings never count against another)", 1)
+		checkKeepAlivePerConn(e, "C10.R7")
 	}
 	if e.want("C10.R4") {
 		if f := e.fn("C10.R4", "udp/server.Server.DiscoveryRequest"); f != nil {
@@ -499,4 +536,13 @@ func c10Panics(e *Env) {
 	e.R.Stats["panic_sites_reachable_from_receive_entry_points"] = reach
 	e.R.Stats["functions_reachable_from_receive_entry_points"] = len(seen)
 	e.R.Infof(rule, "reachable-panic-sites", "-", "%d functions reachable from the receive entry points (call graph: %s); triaged panic sites among them: %s", len(seen), map[bool]string{true: "VTA", false: "CHA"}[e.Tier == "thorough"], strings.Join(reach, ", "))
+}
+
+// fieldOfLoaded: v is a load of a struct field; returns the field.
+func fieldOfLoaded(v ssa.Value) (string, string, bool) {
+	ld, ok := v.(*ssa.UnOp)
+	if !ok || ld.Op != token.MUL {
+		return "", "", false
+	}
+	return core.FieldOf(ld.X)
 }
